@@ -1,12 +1,20 @@
 #!/bin/bash
-# tools/seed_queue.sh <slot> : verifies every seeded/* dir that has no verify.json yet, one after the other
-SLOT="$1"
+# tools/seed_queue.sh <slot> [--skip-suite|--suite-only]
+#   default / --skip-suite: verifies every seeded/* dir that has no verify.json yet, one after the other
+#   --suite-only: for every seeded/* dir whose verify.json says suite "skipped": runs demo + sozu's suite and merges
+SLOT="$1"; MODE="${2:-}"
 cd /verif
 while true; do
   next=""
-  for d in seeded/*/; do d=${d%/}; [ -f "$d/patch.diff" ] && [ ! -f "$d/verify.json" ] && [ ! -f "$d/.claimed" ] && { next="$d"; break; }; done
+  for d in seeded/*/; do d=${d%/}; [ -f "$d/patch.diff" ] || continue; [ -f "$d/.claimed" ] && continue
+    if [ "$MODE" = "--suite-only" ]; then
+      [ -f "$d/verify.json" ] && grep -q '"suite": "skipped"' "$d/verify.json" && { next="$d"; break; }
+    else
+      [ ! -f "$d/verify.json" ] && { next="$d"; break; }
+    fi
+  done
   [ -z "$next" ] && break
   touch "$next/.claimed"
-  tools/seed_verify.sh "$next" "$SLOT"
+  tools/seed_verify.sh "$next" "$SLOT" $MODE
   rm -f "$next/.claimed"
 done
